@@ -30,3 +30,13 @@ pub fn area(s: Shape) -> u32 {
         Shape::Rect((w, h)) => w * h,
     }
 }
+
+#[deprecated(feature: "old-describe", note: "use describe instead")]
+pub fn old_describe(x: u8) -> felt252 {
+    x.into()
+}
+
+#[unstable(feature: "fancy", note: "may change at any time")]
+pub fn fancy(x: u8) -> u8 {
+    x
+}
